@@ -292,6 +292,12 @@ CLAIMED["C04"]["text"] += (
 )
 CLAIMED["C11"]["text"] += " Round 5: the SDS whole-file sessions of vlib/small4.py (image after a header update byte for byte, read back, closed file independent of updates) run in this check too."
 CLAIMED["C07"]["text"] += " Round 5: the SDS whole-file sessions of vlib/small4.py (closed bytes equal those of one write call without header updates) run in this check too."
+    " Round 5: VOC is repaired (voc_close records where the audio ends, type 1 length = datalength + 2, every block reader accepts a missing terminator): voc_reopen_info and"
+    " voc_snapshot_valid (lean/SfProps/C04Voc.lean) hold for EVERY accepted configuration, the old rule (SfModel/VocOld.lean) is refuted by voc_mono_g711_old_rule / voc_snapshot_u8_old_rule."
+    " DWVW: the frame count dwvw_init decodes at open is at least the frames written (dwvw_scan_ge), exact for AIFF (dwvw_aiff_frames_exact), an estimate F >= N for headerless RAW (dwvw_raw_frames_partial).")
+CLAIMED["C08"]["text"] += " Round 5: VOC read/write handles are repaired (SFC_FILE_TRUNCATE, idle open/close); every container gets a deterministic 'open rw, close, open rw, read, close' history."
+CLAIMED["C06"]["text"] += " Round 5: DWVW read calls may be cut anywhere (dwvw_read_split, full strength in every decoder state, since the repair of KF-DWVW-TAIL-CALL)."
+CLAIMED["C01"]["text"] += " Round 5: the DWVW round trip (dwvw_roundtrip) is unconditional for 12 / 16 / 24 bits since the repair of KF-DWVW-TAIL-CALL."
 
 
 def main():
